@@ -155,3 +155,23 @@ def path_beneath(p, block, lo, hi):
     """`beneath` for a block path or a statement path"""
     return stmt_beneath(p.parent, p.index, block, lo, hi) if isinstance(p, StmtPath) \
         else block_beneath(p, block, lo, hi)
+
+
+# ----------------------------------------------------------------- disjoint logs (W2)
+
+def overlap_in_block(a, b):
+    """`_overlaps(a, b)` for two edits of one block (contract `overlaps`, clause same_block_formula)"""
+    return a.block_path == b.block_path and (in_iv(b.index, a.index, a.index + a.removed)
+                                             or in_iv(a.index, b.index, b.index + b.removed))
+
+
+def run_start(edits, e):
+    """where the statements edit e emitted begin, after all edits: e.index moved by the edits
+    that lie wholly before it.  A pure insertion (removed == 0) lies 'before' its own index,
+    so its own contribution is taken out again."""
+    return e.index + shift_of(edits, e.block_path, e.index) - ite(e.removed == 0, e.inserted, 0)
+
+
+def in_run(edits, e, blk, p):
+    """is position p of block blk one of the statements edit e inserted?"""
+    return e.block_path == blk and run_start(edits, e) <= p and p < run_start(edits, e) + e.inserted
